@@ -26,7 +26,8 @@ def _tag(line, out):
 def run(ctx):
     ctx.modelled += [
         "modelled API: f64.Int[T] Add Sub Mul Div Mod Abs Trunc Ceil Round Min Max Inc Dec, built-in comparisons, "
-        "From/As (11 integer kinds), Multiplier, MaxDecimalDigits, MaxSafeMultiply, Fraction.Normalize/Value; "
+        "From/As (11 integer kinds, float32, float64), Multiplier, MaxDecimalDigits, MaxSafeMultiply, "
+        "Fraction.Normalize/Value; "
         "f128.Int[T] the same plus Neg Cmp Equal LessThan LessThanOrEqual GreaterThan GreaterThanOrEqual Maximum "
         "Minimum; all 16 configurations, multiplier taken from the regenerated Facts.fixedConfigs",
         "num.Uint128.Div is taken by its contract (floor division of the magnitudes, panic on zero); the 128-bit "
@@ -36,9 +37,20 @@ def run(ctx):
         "c03_f128_raw.go); /repo is not modified",
     ]
     ctx.assumptions += [
-        "float From/As (area fxfloat) are judged by an exact-rational oracle inside the harness, not by a Lean theorem",
-        "for the float32 kinds the relative part of the float bound is read as 2^-23 (a float32 has 24 significant "
-        "bits; `one part in 2^52` can only refer to float64)",
+        "float From/As, float64 kinds: modelled on the binary64 model GoSem.F64 (Model/FixedFloat.lean), compared raw for "
+        "raw / bit for bit in area fxfloatm, bounds proved (f64_from_float_sharp/_bound, f64_as_float_bound, "
+        "f128_from_float_bound, f128_as_float_bound). Trusted contracts of the standard library, stated in the model: "
+        "strconv.ParseFloat = nearest float, ties to even; big.Float.Quo/Float64 round to nearest even; "
+        "big.Float.Text('f', n) = exact expansion rounded to nearest even at n digits; the text of String() is the exact "
+        "decimal expansion of raw/mult (C04)",
+        "f64.From on a float is claimed only on the domain on which Go defines the float->int64 conversion (rounded "
+        "product truncates into int64, no NaN/Inf): the model answers impl-defined elsewhere and the generator of "
+        "fxfloatm stays inside the domain; f128.From is defined everywhere (NaN panics in math/big, +-Inf give 0, "
+        "out-of-range values saturate in num.Int128FromBigInt) and is generated without restriction",
+        "float From/As, float32 kinds: modelled (round32 = a second nearest-even rounding to 24 bits with the float32 "
+        "exponent range) and compared bit for bit in fxfloatm, but no Lean bound is proved for them; the literal bound "
+        "is judged end to end by the exact-rational oracle of area fxfloat, where the relative part is read as 2^-23 "
+        "(a float32 has 24 significant bits; `one part in 2^52` can only refer to float64)",
         "String/FromString/Comma/CheckedAs belong to C04 and are not modelled here",
     ]
     ctx.lean(props=["Props.C03"], drivers=["drv_c03"])
